@@ -23,7 +23,7 @@ ASSUMPTIONS = [
     "which redraw lands on which repeat position is not fixed by the statement: the model compares multisets and the untouched positions",
     "rows are finite, no signed zeros",
 ]
-REQUIRED_COUNTERS = {"reused_sampler_calls": 300, "scripts": 500, "two_or_more_passes": 50, "budget_exhausted": 20, "zero_budget": 5, "history_with_repeats": 20}
+REQUIRED_COUNTERS = {"scripts_on_nearly_equal_values": 300, "reused_sampler_calls": 300, "scripts": 500, "two_or_more_passes": 50, "budget_exhausted": 20, "zero_budget": 5, "history_with_repeats": 20}
 SHARDS = {"quick": 8, "thorough": 16}
 
 
@@ -74,6 +74,16 @@ def run_script(rng, out):
     bs = int(rng.integers(1, 7))
     budget = int(rng.integers(0, 7))
     space = SearchSpace([[0.0] * dims, [float(width - 1)] * dims], [1.0] * dims, False)
+    # the rows the scripted generator hands out live on base + k*step: unit integers, or nearly-equal distinct values
+    # (large magnitude with a fine step, tiny steps) - "repeat" means exactly equal rows, nothing looser
+    base, step = [(0.0, 1.0), (0.0, 1.0), (1000.0, 0.001), (0.0, 1e-9), (1e6, 0.5), (-3.0, 1e-7)][int(rng.integers(0, 6))]
+    if step != 1.0:
+        c0 = out["counters"]
+        c0["scripts_on_nearly_equal_values"] = c0.get("scripts_on_nearly_equal_values", 0) + 1
+
+    def lift(a):
+        return base + np.asarray(a, dtype=float) * step
+
     log = []
     cur = {"script": None}
 
@@ -97,14 +107,14 @@ def run_script(rng, out):
         if call > 0 and rng.random() < 0.5:
             nh = int(rng.integers(0, 21))      # else: a different history of the same length as in the previous call
         if rng.random() < 0.4 or nh == 0:
-            history = rng.integers(0, width, size=(nh, dims)).astype(float)  # may contain internal repeats
+            history = lift(rng.integers(0, width, size=(nh, dims)))  # may contain internal repeats
         else:
             allpts = np.array(np.meshgrid(*[np.arange(width)] * dims)).reshape(dims, -1).T.astype(float)
-            history = allpts[rng.permutation(len(allpts))[: min(nh, len(allpts))]]
+            history = lift(allpts[rng.permutation(len(allpts))[: min(nh, len(allpts))]])
         losses = rng.random(len(history))
         total = bs * (budget + 1)
         p_hist = float(rng.choice([0.0, 0.3, 0.7, 1.0]))
-        script = rng.integers(0, width, size=(total, dims)).astype(float)
+        script = lift(rng.integers(0, width, size=(total, dims)))
         for k in range(total):
             u = rng.random()
             if len(history) and u < p_hist * 0.6:
